@@ -313,7 +313,7 @@ def worker(lines, ctx):
     return out
 
 
-CONFIGS = {"quick": ["ProcQuick.cfg"], "thorough": ["ProcQuick.cfg", "ProcFull.cfg"]}
+CONFIGS = {"quick": ["ProcQuick.cfg"], "thorough": ["ProcQuick.cfg", "ProcHist3.cfg", "ProcFull.cfg"]}
 
 
 def run(tier: str, seed: int) -> list[Part]:
